@@ -34,7 +34,7 @@ def run():
     chk = Check("C10")
     corp = Corpus(chk)
     if chk.quick:
-        triples = corp.triples(n_enum=520, n_random=140, salt="c10")
+        triples = corp.triples(n_enum=600, n_random=140, salt="c10")
     else:
         triples = corp.triples(n_enum=9000, n_random=4000, random_maxedits=5, salt="c10")
     tasks = [(name, b, l, rr, make_plan(k % 3 == 0 or not chk.quick), {}) for k, (name, b, l, rr, info) in enumerate(triples)]
